@@ -1,4 +1,5 @@
 import Swat4.Lemmas.GS1
+import Swat4.Lemmas.Details
 import Swat4.Gen.Facts
 /-!
 # C07 — No probe response can crash or hang the prober
@@ -7,6 +8,9 @@ Property theorems only.  `GS1.*` is the model of `pkg/gamespy/serverquery/gs1/gs
 (`Model/GS1.lean`): every index/slice expression of that file is a checked operation whose
 failure is the outcome `panic`, the one unbounded loop runs on fuel and running out is the
 outcome `hang`.  The theorems say that neither outcome is reachable, for every datagram sequence.
+
+The second half (`details_facts_ok` onwards) is about what `DetailsProber.Probe` does with a decoded
+response (`Model/Details.lean`: `NewDetailsFromParams` + `Details.Validate` with the `ratio` validator).
 
 Not a theorem (measured by the harness instead): that the read-deadline goroutine makes `Query`
 return by `timeout`; the outcome `timeout` of `runQuery` stands for it.
@@ -118,3 +122,184 @@ end Swat4.C07
 /-- non-vacuity: the old crash witness `\a\\queryid\1\final\` is now decoded (field `a` = empty) -/
 example : Swat4.GS1.runQuery [[0x5c, 0x61, 0x5c, 0x5c, 0x71, 0x75, 0x65, 0x72, 0x79, 0x69, 0x64, 0x5c, 0x31, 0x5c, 0x66, 0x69, 0x6e, 0x61, 0x6c, 0x5c]] =
     .response ⟨[([0x61], [])], [], [], .gs1⟩ := by decide
+
+namespace Swat4.C07
+open Swat4 Swat4.GS1 Swat4.DetailsProbe Swat4.DetailsSpec
+
+/-! ## the details prober after the query (`DetailsProber.Probe`, op `dp`) -/
+
+/-- everything the model of the post-query stage and the theorems below assume about the generated
+schemas (`Facts.detailsInfoSchema`, `detailsPlayerSchema`, `detailsObjectiveSchema`, `detailsTopSchema`):
+only int/bool/string fields and only the tags `required`, `gt=0`, `gte=0`, `oneof=…` (ints), `ratio`
+(strings) occur; `details.Info` is the struct the reporter model uses; field names and kinds are the
+ones the specification `DetailsSpec` is written against; every constraint `DetailsSpec.accepted` states
+is backed by the tag on that very field (`required` on the names and the five info strings, `gt=0` on
+`HostPort`, `gte=0` on the counters, `ratio` on `TocReports`/`WeaponsSecured`, `oneof=0 1 2` on `Team`
+and the objective `Status`, `oneof=0 1 2 3 4` on `CoopStatus`); `Details.Info` carries at most
+`required`, both slices carry `dive`.  A change of a tag in the source changes the generated schema
+and this theorem stops checking. -/
+theorem details_facts_ok : DetailsProbe.FactsOk := by
+  constructor <;> decide
+
+/-- **the post-query stage is total.**  `Outcome` has no panic constructor, and that is faithful: the
+only partial Go operations of `NewDetailsFromParams` / `params.Unmarshal` / `Details.Validate` /
+`ValidateRatio` (inventory: `Facts.detailsPartialOps`) are `players[i]`, `details.Players[i]`,
+`objectives[i]`, `details.Objectives[i]` with `i` ranging over the slice the target was `make`d from
+(modelled by `List.mapM`, in range by construction) — there is no slicing and no type assertion, and
+`strings.Cut`/`strconv.Atoi` return flags instead of panicking; in the model every step is a total
+structural function (`unmarshal`, `parseVal`, `atoi`, `ratioOk` via `takeWhile`/`dropWhile`).  Hence
+for every decoded response the stage yields a details value, `ErrParseFailed` or `ErrValidationFailed`.
+That the *implementation* has no further partial operation is what the correspondence run checks
+(a panic in a validator is the output `panic:…`, never produced by the model). -/
+theorem detailsOf_total (r : Response) :
+    (∃ d, detailsOf r = .ok d) ∨ detailsOf r = .errParse ∨ detailsOf r = .errValidate := by
+  cases h : detailsOf r with
+  | ok d => exact .inl ⟨d, rfl⟩
+  | errParse => exact .inr (.inl rfl)
+  | errValidate => exact .inr (.inr rfl)
+
+/-- **C07 for the whole probe.** For every sequence of datagrams the probed address sends back,
+`DetailsProber.Probe` ends in a details value or one of its four error classes — never in a panic
+or an endless loop (the model's `panic`/`hang` outcomes, inherited from `runQuery`, are unreachable). -/
+theorem probe_classes (ds : List Bytes) :
+    (∃ d, probe ds = .ok d) ∨ probe ds = .errTimeout ∨ probe ds = .errQuery ∨ probe ds = .errParse ∨
+      probe ds = .errValidate := by
+  unfold probe
+  rcases runQuery_classes ds with ⟨r, h⟩ | ⟨e, h⟩ | h <;> rw [h] <;> simp only
+  · rcases detailsOf_total r with ⟨d, hd⟩ | hd | hd <;> rw [hd] <;> simp
+  · simp
+  · simp
+
+theorem probe_total (ds : List Bytes) : probe ds ≠ .panic ∧ probe ds ≠ .hang := by
+  rcases probe_classes ds with ⟨d, h⟩ | h | h | h | h <;> rw [h] <;> simp
+
+/-- the model's `ValidateRatio` accepts exactly the declarative ratio format: empty, or
+`number '/' number` where a number is what `strconv.Atoi` reads as a non-negative int
+(digits, optionally preceded by `+`, or by `-` when the value is zero) -/
+theorem ratioOk_iff_spec (s : Bytes) : Heartbeat.ratioOk s = true ↔ RatioSpec s := ratioOk_iff s
+
+/-- the executable twin the driver evaluates is the declarative format -/
+theorem ratioSpec_iff_spec (s : Bytes) : ratioSpec s = true ↔ RatioSpec s := ratioSpec_iff s
+
+/-- **`ratio` rejects every value with two or more `/`** (such as `1/2/3`, `0/0/0`, `//`): the right
+part of the cut at the first `/` still holds a `/`, which `strconv.Atoi` refuses — there is no
+second cut and nothing to index -/
+theorem ratio_rejects_two_slashes (s : Bytes) (h : 2 ≤ s.count 0x2F) : Heartbeat.ratioOk s = false := by
+  cases hr : Heartbeat.ratioOk s with
+  | false => rfl
+  | true =>
+    have := ratioSpec_count ((ratioOk_iff s).mp hr)
+    omega
+
+/-- … and so does the `ratio` tag of the validator model, on either ratio field -/
+theorem ratio_tag_rejects_two_slashes (s : Bytes) (h : 2 ≤ s.count 0x2F) :
+    DetailsProbe.checkTag (.str s) "ratio" = false := by
+  have := ratio_rejects_two_slashes s h
+  simpa [DetailsProbe.checkTag, oneof_ratio, Heartbeat.checkTag] using this
+
+/-- **soundness of acceptance.** If the stage accepts a decoded response, the details value satisfies
+every validated constraint (`DetailsSpec.accepted`, written independently of the model): host port
+positive; hostname, game variant, game version, game type, map name non-empty; every `gte=0` counter
+non-negative; both ratio fields in the ratio format; every player named, with team in 0..2, co-op
+status in 0..4 and non-negative counters; every objective named with status in 0..2. -/
+theorem accepted_sound (r : Response) (d : Details) (h : detailsOf r = .ok d) : DetailsSpec.accepted d = true :=
+  detailsOf_sound details_facts_ok h
+
+/-- the same for the whole probe: a details value the prober returns is an accepted one -/
+theorem probe_ok_accepted (ds : List Bytes) (d : Details) (h : probe ds = .ok d) : DetailsSpec.accepted d = true := by
+  unfold probe at h
+  split at h
+  · rename_i r _
+    cases hd : detailsOf r with
+    | ok d' => rw [hd] at h; cases h; exact accepted_sound r _ hd
+    | errParse => rw [hd] at h; cases h
+    | errValidate => rw [hd] at h; cases h
+  all_goals cases h
+
+/-! ### `accepted`, read field by field -/
+
+theorem intIn_spec {lo hi : Int} {o : Option Val} (h : intIn lo hi o = true) : ∃ n, o = some (.int n) ∧ lo ≤ n ∧ n ≤ hi := by
+  unfold intIn at h
+  split at h
+  · rename_i n; simp only [Bool.and_eq_true, decide_eq_true_eq] at h; exact ⟨n, rfl, h.1, h.2⟩
+  · cases h
+
+theorem intAtLeast_spec {lo : Int} {o : Option Val} (h : intAtLeast lo o = true) : ∃ n, o = some (.int n) ∧ lo ≤ n := by
+  unfold intAtLeast at h
+  split at h
+  · rename_i n; simp only [decide_eq_true_eq] at h; exact ⟨n, rfl, h⟩
+  · cases h
+
+/-- an accepted details value: the host port is positive -/
+theorem accepted_hostport {d : Details} (h : DetailsSpec.accepted d = true) :
+    ∃ n, field infoNames d.info "HostPort" = some (.int n) ∧ 0 < n := by
+  simp only [DetailsSpec.accepted, infoAccepted, Bool.and_eq_true] at h
+  obtain ⟨n, h1, h2⟩ := intAtLeast_spec h.1.1.1.1.2
+  exact ⟨n, h1, by omega⟩
+
+/-- an accepted details value: both ratio fields are in the ratio format — in particular hold at most one `/` -/
+theorem accepted_ratios {d : Details} (h : DetailsSpec.accepted d = true) :
+    ∀ name ∈ infoRatios, ∃ s, field infoNames d.info name = some (.str s) ∧ RatioSpec s ∧ s.count 0x2F ≤ 1 := by
+  simp only [DetailsSpec.accepted, infoAccepted, Bool.and_eq_true] at h
+  intro name hn
+  have := List.all_eq_true.mp h.1.1.2 name hn
+  unfold ratioStr at this
+  split at this
+  · rename_i s hs
+    have hr := (ratioSpec_iff s).mp this
+    exact ⟨s, hs, hr, ratioSpec_count hr⟩
+  · cases this
+
+/-- an accepted details value: every player's team is 0, 1 or 2 and the co-op status is within 0..4 -/
+theorem accepted_players {d : Details} (h : DetailsSpec.accepted d = true) :
+    ∀ p ∈ d.players, (∃ n, field playerNames p "Team" = some (.int n) ∧ 0 ≤ n ∧ n ≤ 2) ∧
+      (∃ n, field playerNames p "CoopStatus" = some (.int n) ∧ 0 ≤ n ∧ n ≤ 4) := by
+  simp only [DetailsSpec.accepted, Bool.and_eq_true] at h
+  intro p hp
+  have := List.all_eq_true.mp h.1.2 p hp
+  simp only [playerAccepted, Bool.and_eq_true] at this
+  exact ⟨intIn_spec this.1.1.2, intIn_spec this.1.2⟩
+
+/-- an accepted details value: every objective's status is 0, 1 or 2 -/
+theorem accepted_objectives {d : Details} (h : DetailsSpec.accepted d = true) :
+    ∀ o ∈ d.objectives, ∃ n, field objectiveNames o "Status" = some (.int n) ∧ 0 ≤ n ∧ n ≤ 2 := by
+  simp only [DetailsSpec.accepted, Bool.and_eq_true] at h
+  intro o ho
+  have := List.all_eq_true.mp h.2 o ho
+  simp only [objectiveAccepted, Bool.and_eq_true] at this
+  exact intIn_spec this.2
+
+end Swat4.C07
+
+namespace Swat4.C07.Examples
+open Swat4 Swat4.GS1 Swat4.DetailsProbe Swat4.DetailsSpec
+
+def a (s : String) : Bytes := Bytes.ofAscii s
+
+/-- a decoded status the prober accepts (maps key-sorted, as `expandPayload` of the model builds them) -/
+def good (toc : String) (team : String) : Response :=
+  ⟨[(a "gametype", a "VIP Escort"), (a "gamevariant", a "SWAT 4"), (a "gamever", a "1.1"), (a "hostname", a "Swat4 Server"),
+    (a "hostport", a "10480"), (a "mapname", a "Fairfax Residence"), (a "tocreports", a toc)],
+   [[(a "player", a "Joe"), (a "team", a team)]], [(a "Rescue_All_Hostages", a "1")], .gs1⟩
+
+/-- non-vacuity of `accepted_sound`: a concrete accepted details value (ratio `-0/+5`, which `strconv.Atoi` reads as 0/5) -/
+example : detailsOf (good "-0/+5" "2") = .ok
+    ⟨[.str (a "Swat4 Server"), .int 10480, .str (a "SWAT 4"), .str (a "1.1"), .str (a "VIP Escort"), .int 0, .int 0,
+      .str (a "Fairfax Residence"), .bool false, .bool false, .int 0, .int 0, .int 0, .int 0, .int 0, .int 0, .int 0, .int 0,
+      .int 0, .int 0, .str (a "-0/+5"), .str [], .str []],
+     [[.str (a "Joe"), .int 0, .int 0, .int 2, .bool false, .int 0, .int 0, .int 0, .int 0, .int 0, .int 0, .int 0, .int 0,
+       .int 0, .int 0, .int 0, .int 0, .int 0, .bool false, .int 0, .int 0, .bool false]],
+     [[.str (a "Rescue_All_Hostages"), .int 1]]⟩ := by decide
+
+/-- the seeded crash witness is an ordinary validation failure -/
+example : detailsOf (good "1/2/3" "2") = .errValidate := by decide
+example : detailsOf (good "1/2" "3") = .errValidate := by decide
+example : detailsOf (good "1/2" "x") = .errParse := by decide
+/-- the whole path on a one-datagram GS1 response: the required `hostport` is missing -/
+example : probe [a "\\hostname\\x\\tocreports\\1/2/3\\queryid\\1\\final\\"] = .errValidate := by decide
+example : probe [a "\\hostname\\x\\queryid\\1"] = .errTimeout := by decide
+example : probe [a "\\hostname\\x\\queryid\\0\\final\\"] = .errQuery := by decide
+example : RatioSpec (a "-0/+5") := (ratioSpec_iff _).mp (by decide)
+example : ¬ RatioSpec (a "1/2/3") := fun h => by have := (ratioSpec_iff _).mpr h; revert this; decide
+
+end Swat4.C07.Examples
